@@ -48,6 +48,27 @@ def known_names() -> Set[str]:
   return _KNOWN
 
 
+_BASELINE = None
+
+
+def baseline_api() -> Set[str]:
+  """Qualified names of the public functions of the reference tree
+  (tools/gen_baseline_api.py)."""
+  global _BASELINE
+  if _BASELINE is None:
+    here = os.path.dirname(os.path.abspath(__file__))
+    with open(os.path.join(here, 'baseline_api.txt')) as f:
+      _BASELINE = {ln.strip() for ln in f if ln.strip()}
+  return _BASELINE
+
+
+def _new_public_function(h) -> bool:
+  """A function without a leading underscore that the reference tree does not
+  have (under that name, in that module): introduced by the change under
+  analysis, read as a helper of its callers."""
+  return h.qualname not in baseline_api()
+
+
 def _module_is_helper_only(h) -> bool:
   """The function lives in a module no rule knows anything about (neither the
   module's name nor any of its functions): a helper module split off from the
@@ -173,7 +194,8 @@ def eligible(h, generator: bool = False, nested_ok: bool = False,
   if h.name in known_names() or h.name.lstrip('_') in known_names():
     return False
   if not h.name.startswith('_') and not nested_ok and not (
-      other_module and _module_is_helper_only(h)):
+      other_module and _module_is_helper_only(h)) and not (
+          _new_public_function(h)):
     return False
   for x in _own_nodes(n):
     if isinstance(x, (ast.Await, ast.Global, ast.Nonlocal)):
@@ -699,8 +721,19 @@ class Inliner:
         n = par
       if not ok:
         continue
+      own = f.local_names() if hasattr(f, 'local_names') else set()
+
+      def _module_attr(x):
+        # `mod.Name` / `pkg.mod.Name` on an imported module: reading it
+        # neither has an effect nor depends on what the helper does
+        while isinstance(x, ast.Attribute):
+          x = x.value
+        return isinstance(x, ast.Name) and x.id in f.module.imports and (
+            x.id not in own)
+
       first = not any(
           isinstance(x, (ast.Call, ast.Attribute, ast.Subscript, ast.Await)) and
+          not (isinstance(x, ast.Attribute) and _module_attr(x)) and
           (getattr(x, 'lineno', 0), getattr(x, 'col_offset', 0)) < (
               c.lineno, c.col_offset) and not any(z is c for z in ast.walk(x))
           for x in ast.walk(root))
